@@ -255,19 +255,6 @@ fn rand_pm(rng: &mut Rng, nv: usize) -> (Vec<Option<bool>>, Value) {
     (v, j)
 }
 
-fn is_integral(x: f64) -> bool {
-    x.is_finite() && x.fract() == 0.0 && x.abs() < 2_000_000_000.0
-}
-
-/// log an f64 that is expected to be an exact integer after scaling; otherwise log it as a string
-fn num(x: f64) -> Value {
-    if is_integral(x) {
-        json!(x as i64)
-    } else {
-        json!(format!("{:e}", x))
-    }
-}
-
 pub struct Session<'a, T: IteTable<'a, BddPtr<'a>> + Default> {
     pub b: &'a RobddBuilder<'a, T>,
     pub ids: Ids<'a>,
